@@ -25,7 +25,9 @@ ASSUMPTIONS = ["'same numeric value' is enforced: a form is used only if convert
 INT_TYPES = [np.int8, np.int16, np.int32, np.int64, np.uint8, np.uint16, np.uint32, np.uint64]
 FLOAT_TYPES = [np.float16, np.float32, np.float64, np.longdouble]
 
-VALUES = [0.0, 1.0, 2.0, 3.0, 5.0, 40.0, 200.0, 0.5, 0.25, 0.125, 1.5, 0.11, 0.3, 0.7, 0.011, 2.2]
+VALUES = [0.0, 1.0, 2.0, 3.0, 5.0, 40.0, 200.0, 0.5, 0.25, 0.125, 1.5, 0.11, 0.3, 0.7, 0.011, 2.2,
+          # full-mantissa values that a narrower float type holds exactly: arithmetic carried out in that type would round differently
+          float(np.float32(0.11)), float(np.float32(0.7)), float(np.float32(1.3)), float(np.float16(0.3)), float(np.float16(0.11))]
 
 
 def scalar_forms(v):
@@ -46,6 +48,9 @@ def matrix_forms(v, n):
     out = [("matrix_f64_C", np.full((n, n), float(v))), ("matrix_f64_F", np.asfortranarray(np.full((n, n), float(v))))]
     if float(np.float32(v)) == float(v):
         out.append(("matrix_f32", np.full((n, n), v, dtype=np.float32)))
+        out.append(("matrix_f32_F", np.asfortranarray(np.full((n, n), v, dtype=np.float32))))
+    if float(np.float16(v)) == float(v):
+        out.append(("matrix_f16", np.full((n, n), v, dtype=np.float16)))
     if float(v).is_integer():
         out.append(("matrix_i64", np.full((n, n), int(v), dtype=np.int64)))
     return out
